@@ -18,6 +18,7 @@ from sim.runner import Outcome, stable_hash, violation_dict
 PROPERTY = "C04"
 NAME = "c04"
 LEVEL = "exploration"
+CRASH_IS_VIOLATION = True  # a run that kills the interpreter is attributed and reported by the runner
 RULE = ("all variants run against a sanitizer build of the current C sources, observed three ways: AddressSanitizer/"
         "UBSan reports (log inspected after every run), a preloaded ASan-built libcrypto shim that checks the ranges "
         "handed to EVP_CipherUpdate/EVP_CipherInit_ex, and argument contracts at the Python/C boundary derived from the "
